@@ -386,7 +386,7 @@ def check(case, cc):
     cc.cls('frames:>=10', nframes >= 10)
     if nt:
         cc.sample({'curves': ncurves, 'frames': nframes, 'order': model['order'],
-                   'text_of_layout_1': genlas.render_las(model, layouts[1])[:1500]})
+                   'first_lines_of_layout_1': genlas.render_las(model, layouts[1]).split('\n')[:12]})
 
 
 def _has_time(text):
